@@ -1,2 +1,130 @@
-/-! line-protocol driver for property C20 (stub) -/
-def main (_args : List String) : IO Unit := pure ()
+import MirVerif.Gen.C20_Tables
+import MirVerif.Model.Mir2CKnown
+import MirVerif.Model.Mir2COvf
+import MirVerif.Model.Mir2CSection
+/-! `mirdrv_c20`: evaluates the model of the emitted C (rows of the table REGENERATED from the current
+mir2c.c) next to the documented meaning, one request per line:
+
+  bin  <OPCODE> <hex a> <hex b>   -> `<cSem no-wrapv> <cSem -fwrapv> <docSem> <agree0> <agree1>`
+  br   <OPCODE> <hex a> <hex b>   -> `<cBranch> <docBranch>`        (`undef` where MIR is undefined)
+  ext  <OPCODE> <hex a>           -> `<cCasts> <docExt>`
+  neg  <OPCODE> <hex a>           -> `<cNeg no-wrapv> <cNeg -fwrapv> <docNeg>`
+  bt   <BT|BF|BTS|BFS> <hex a>    -> `<cBT> <docBT>`
+  ov   <add|sub|mul|umul> <0|1> <hex a> <hex b>
+                                  -> `<stored result> <__overflow> <uboFlag> <doc result> <doc sov> <doc uov>`
+  sect <0|1 fixed> <fuel> <items> -> per item `[[..],[..]]` or `DIVERGE`; items: comma list of
+                                     <N|A><d|r|e|b|o> (named/anonymous; data, ref, expr, bss, other)
+  rows                            -> the opcode names of all row kinds (for the check's inventory)
+values are hex, `undef` = undefined, `norow` = the table has no (understood) row for the opcode. -/
+open MirVerif MirVerif.Mir2C
+
+def parseHex (s : String) : UInt64 :=
+  s.foldl (fun acc c =>
+    let d := if c.isDigit then c.toNat - '0'.toNat
+             else if 'a' ≤ c ∧ c ≤ 'f' then c.toNat - 'a'.toNat + 10
+             else if 'A' ≤ c ∧ c ≤ 'F' then c.toNat - 'A'.toNat + 10 else 0
+    acc * 16 + d.toUInt64) 0
+
+def w64 (s : String) : W64 := BitVec.ofNat 64 (parseHex s).toNat
+def hex {n} (x : BitVec n) : String := String.ofList (Nat.toDigits 16 x.toNat)
+def hexO (o : Option W64) : String := match o with | some r => hex r | none => "undef"
+def b2s (b : Bool) : String := if b then "1" else "0"
+
+def lookup {β} (l : List (String × β)) (k : String) : Option β := (l.find? (·.1 == k)).map (·.2)
+
+def agreeS (a : AOp) (s : Bool) (c d : Option W64) : String :=
+  match c, d with
+  | some r, some r' => b2s (decide (agree a s r r'))
+  | none, _ => "u"       -- C undefined: nothing to compare
+  | some _, none => "x"  -- C defined, MIR undefined: nothing required
+
+def itemOf (s : String) : Option Item :=
+  match s.toList with
+  | [n, k] =>
+    let kind := match k with
+      | 'd' => some IKind.data | 'r' => some IKind.refData | 'e' => some IKind.exprData
+      | 'b' => some IKind.bss | 'o' => some IKind.other | _ => none
+    kind.map fun kd => ⟨n == 'N', kd⟩
+  | _ => none
+
+def showLL (l : List (List Nat)) : String :=
+  "[" ++ ",".intercalate (l.map fun m => "[" ++ ",".intercalate (m.map toString) ++ "]") ++ "]"
+
+def evalLine (toks : List String) : String :=
+  match toks with
+  | ["bin", name, sa, sb] =>
+    match lookup Gen.C20.intRows name, nameToOp name with
+    | some tm, some (a, s) =>
+      let x := w64 sa; let y := w64 sb
+      let c0 := cSem false tm x y; let c1 := cSem true tm x y; let d := docSem a s x y
+      s!"{hexO c0} {hexO c1} {hexO d} {agreeS a s c0 d} {agreeS a s c1 d}"
+    | _, _ => "norow"
+  | ["br", name, sa, sb] =>
+    match lookup Gen.C20.brRows name, brNameToOp name with
+    | some tm, some (a, s) =>
+      let x := w64 sa; let y := w64 sb
+      match docSem a s x y with
+      | some _ => s!"{b2s (cBranch tm x y)} {b2s (docBranch a s x y)}"
+      | none => "undef"
+    | _, _ => "norow"
+  | ["ext", name, sa] =>
+    let spec : Option (Nat × Bool) := match name with
+      | "EXT8" => some (8, true) | "EXT16" => some (16, true) | "EXT32" => some (32, true)
+      | "UEXT8" => some (8, false) | "UEXT16" => some (16, false) | "UEXT32" => some (32, false)
+      | _ => none
+    match lookup Gen.C20.castRows name, spec with
+    | some cs, some (k, sg) => s!"{hex (cCasts cs (w64 sa))} {hex (docExt k sg (w64 sa))}"
+    | _, _ => "norow"
+  | ["neg", name, sa] =>
+    match lookup Gen.C20.negRows name with
+    | some t =>
+      let short := name == "NEGS"
+      s!"{hexO (cNeg false t (w64 sa))} {hexO (cNeg true t (w64 sa))} {hex (docNeg short (w64 sa))}"
+    | none => "norow"
+  | ["bt", name, sa] =>
+    let neg := name == "BF" || name == "BFS"
+    let short := name == "BTS" || name == "BFS"
+    s!"{b2s (cBT neg (if short then .i32 else .i64) (w64 sa))} {b2s (docBT neg short (w64 sa))}"
+  | ["ov", o, s, sa, sb] =>
+    let short := s == "1"
+    let x := w64 sa; let y := w64 sb
+    let go {n : Nat} (a b : BitVec n) : String :=
+      match o with
+      | "add" => let r := builtinS .add a b; let d := docAddO a b
+                 s!"{hex r.1} {b2s r.2} {b2s (uboFlag .add a b)} {hex d.1} {b2s d.2.1} {b2s d.2.2}"
+      | "sub" => let r := builtinS .sub a b; let d := docSubO a b
+                 s!"{hex r.1} {b2s r.2} {b2s (uboFlag .sub a b)} {hex d.1} {b2s d.2.1} {b2s d.2.2}"
+      | "mul" => let r := builtinS .mul a b; let d := docMulO a b
+                 s!"{hex r.1} {b2s r.2} - {hex d.1} {b2s d.2} -"
+      | _ => let r := builtinU .mul a b; let d := docUMulO a b
+             s!"{hex r.1} {b2s r.2} {b2s r.2} {hex d.1} - {b2s d.2}"
+    if short then go (lo32 x) (lo32 y) else go x y
+  | ["sect", f, fuel, its] =>
+    let items := (its.splitOn ",").filterMap itemOf
+    let fixed := f == "1"
+    " ".intercalate ((List.range items.length).map fun i =>
+      match items[i]? with
+      | some it =>
+        if isDataKind it.kind then
+          match printSection fixed items i fuel.toNat! with
+          | some l => showLL l
+          | none => "DIVERGE"
+        else "-"
+      | none => "-")
+  | ["rows"] =>
+    "int=" ++ ",".intercalate (Gen.C20.intRows.map (·.1)) ++ " br=" ++ ",".intercalate (Gen.C20.brRows.map (·.1)) ++
+    " cast=" ++ ",".intercalate (Gen.C20.castRows.map (·.1)) ++ " neg=" ++ ",".intercalate (Gen.C20.negRows.map (·.1)) ++
+    " other=" ++ ",".intercalate (Gen.C20.otherRows.map fun r => r.1 ++ ":" ++ r.2.1 ++ ":" ++ r.2.2.replace " " "_") ++
+    " inline=" ++ ",".intercalate Gen.C20.inlineCases ++
+    " known=" ++ ",".intercalate (knownDeviations.map Deviation.signature) ++
+    " loopFixed=" ++ b2s loopFixed ++ " adv=" ++ Gen.C20.sectionAdvanceVar
+  | _ => "bad-line"
+
+partial def loop (h : IO.FS.Stream) (out : IO.FS.Stream) : IO Unit := do
+  let line ← h.getLine
+  if line.isEmpty then return ()
+  out.putStrLn (evalLine (line.trimAscii.toString.splitOn " "))
+  loop h out
+
+def main (_args : List String) : IO Unit := do
+  loop (← IO.getStdin) (← IO.getStdout)
